@@ -123,7 +123,7 @@ impl RaftStorage {
                 lemma_filter_inc(s, below(from));
             }
 //@name E "for (\w+) in entries"
-//@before "for @{E} in"
+//@beforeloop 1
         let ghost log0 = log@;
 //@loop 1 iter=it
             invariant log@ == log0 + it.seq().take(it.index() as int)   //#pushed_prefix
